@@ -53,7 +53,25 @@ func (ex *Exec) call(st *State, in *ssa.Call) ([]Outcome, bool) {
 		fv := ex.value(st, f).(Func)
 		return ex.callFn(st, fv.Fn.(*ssa.Function), args, fv.Free, pos), true
 	default:
-		fv, ok := ex.value(st, c.Value).(Func)
+		v := ex.value(st, c.Value)
+		if fc, ok := v.(FuncChoice); ok {
+			var outs []Outcome
+			for _, key := range fc.Table.Keys {
+				s2 := st.Clone()
+				s2.Assume(smt.Eq(fc.Key, ex.StrLit(key)))
+				ex.countPath()
+				f := fc.Table.Funcs[key]
+				outs = append(outs, ex.callFn(s2, f.Fn.(*ssa.Function), args, f.Free, pos)...)
+			}
+			// a key outside the table yields a nil function: calling it panics
+			s3 := st.Clone()
+			for _, key := range fc.Table.Keys {
+				s3.Assume(smt.Neq(fc.Key, ex.StrLit(key)))
+			}
+			outs = append(outs, Outcome{St: s3, Panic: true, Msg: "call of nil function from " + fc.Table.Name, Pos: pos})
+			return outs, true
+		}
+		fv, ok := v.(Func)
 		if ok && fv.Fn != nil {
 			return ex.callFn(st, fv.Fn.(*ssa.Function), args, fv.Free, pos), true
 		}
@@ -244,13 +262,23 @@ func (ex *Exec) applyContract(st *State, fn *ssa.Function, fc *contract.Func, ar
 	var rets []Val
 	sig := fn.Signature
 	if fc.Flags["pure"] {
-		if sig.Results().Len() != 1 {
-			outside("pure function %s must have exactly one result", name)
-		}
-		rets = []Val{ex.PureApp(st, fn, args)}
+		rets = ex.PureAppN(st, fn, args)
 	} else {
 		for i := 0; i < sig.Results().Len(); i++ {
 			rets = append(rets, ex.Fresh(st, sig.Results().At(i).Type(), "ret_"+fn.Name()))
+		}
+	}
+	if fc.Flags["freshresult"] {
+		for _, r := range rets {
+			if ref, ok := ex.refOf(st, r); ok {
+				st.Assume(smt.Neq(ref, NilRef))
+				for _, other := range ex.knownRefs(st, args) {
+					st.Assume(smt.Neq(ref, other))
+				}
+				ex.mu.Lock()
+				ex.freshRefs = append(ex.freshRefs, ref)
+				ex.mu.Unlock()
+			}
 		}
 	}
 	// havoc assigns
@@ -315,9 +343,100 @@ func (ex *Exec) resolveLoc(sc *Scope, loc string) (Ptr, types.Type) {
 
 // ---------------------------------------------------------------- pure functions
 
+// knownRefs: references a fresh object must differ from (earlier fresh objects, arguments,
+// entry parameters).
+func (ex *Exec) knownRefs(st *State, args []Val) []string {
+	ex.mu.Lock()
+	out := append([]string(nil), ex.freshRefs...)
+	out = append(out, ex.entryRefs...)
+	ex.mu.Unlock()
+	for _, a := range args {
+		if r, ok := ex.refOf(st, a); ok && r != NilRef {
+			out = append(out, r)
+		}
+	}
+	return dedup(out)
+}
+
+// PureAppN applies a pure function with one result, or with (T, error): one symbol per
+// result.
+func (ex *Exec) PureAppN(st *State, fn *ssa.Function, args []Val) []Val {
+	res := fn.Signature.Results()
+	if res.Len() == 1 {
+		return []Val{ex.PureApp(st, fn, args)}
+	}
+	rel := relOf(fn)
+	name := load.FuncName(fn)
+	fc := ex.Contracts.Func(rel, name)
+	if fc == nil || !fc.Flags["pure"] {
+		panic(fmt.Errorf("contract: %s.%s used as a pure function but its contract is not marked pure", rel, name))
+	}
+	ex.mu.Lock()
+	ex.UsedContracts[rel+":"+name] = true
+	ex.mu.Unlock()
+	var terms, sorts []string
+	for _, a := range args {
+		terms = append(terms, flatten(a)...)
+		sorts = append(sorts, flatSorts(a)...)
+	}
+	base := "F_" + strings.ReplaceAll(rel, "/", "_") + "_" + name
+	var rets []Val
+	for i := 0; i < res.Len(); i++ {
+		rt := res.At(i).Type()
+		if isErrorType(rt) {
+			f := ex.Ctx.Declare(fmt.Sprintf("%s_%d_errnil", base, i), sorts, "Bool")
+			rets = append(rets, Err{Nil: smt.App(f, terms...)})
+			continue
+		}
+		if sl, ok := rt.Underlying().(*types.Slice); ok {
+			fa := ex.Ctx.Declare(fmt.Sprintf("%s_%d_arr", base, i), sorts, ArrSort(sl.Elem()))
+			fl := ex.Ctx.Declare(fmt.Sprintf("%s_%d_len", base, i), sorts, "Int")
+			ln := smt.App(fl, terms...)
+			st.Assume(smt.Ge(ln, "0"))
+			rets = append(rets, Slice{Arr: smt.App(fa, terms...), Len: ln, Elem: sl.Elem(), B: ex.newBacking()})
+			continue
+		}
+		f := ex.Ctx.Declare(fmt.Sprintf("%s_%d", base, i), sorts, mustSort(rt))
+		rets = append(rets, wrapTerm(rt, smt.App(f, terms...)))
+	}
+	sc := ex.scopeFor(fn, st, nil, args, rets)
+	for _, e := range fc.Default().Ensures {
+		st.Assume(ex.EvalBool(sc, e))
+	}
+	return rets
+}
+
 // PureApp applies the uninterpreted symbol of a pure function and makes its proved
 // lemmas / ensures available.
 func (ex *Exec) PureApp(st *State, fn *ssa.Function, args []Val) Val {
+	if fn.Signature.Results().Len() != 1 {
+		return Tuple(ex.PureAppN(st, fn, args))
+	}
+	if sl, ok := fn.Signature.Results().At(0).Type().Underlying().(*types.Slice); ok {
+		// slice-valued pure function: array and length symbols
+		rel := relOf(fn)
+		name := load.FuncName(fn)
+		fc := ex.Contracts.Func(rel, name)
+		if fc == nil || !fc.Flags["pure"] {
+			panic(fmt.Errorf("contract: %s.%s used as a pure function but its contract is not marked pure", rel, name))
+		}
+		var terms, sorts []string
+		for _, a := range args {
+			terms = append(terms, flatten(a)...)
+			sorts = append(sorts, flatSorts(a)...)
+		}
+		base := "F_" + strings.ReplaceAll(rel, "/", "_") + "_" + name
+		fa := ex.Ctx.Declare(base+"_arr", sorts, ArrSort(sl.Elem()))
+		fl := ex.Ctx.Declare(base+"_len", sorts, "Int")
+		ln := smt.App(fl, terms...)
+		st.Assume(smt.Ge(ln, "0"))
+		res := Slice{Arr: smt.App(fa, terms...), Len: ln, Elem: sl.Elem(), B: ex.newBacking()}
+		sc := ex.scopeFor(fn, st, nil, args, []Val{res})
+		for _, e := range fc.Default().Ensures {
+			st.Assume(ex.EvalBool(sc, e))
+		}
+		return res
+	}
 	rel := relOf(fn)
 	name := load.FuncName(fn)
 	fc := ex.Contracts.Func(rel, name)
@@ -561,7 +680,17 @@ func (ex *Exec) enterLoop(st *State, b *ssa.BasicBlock, prev *ssa.BasicBlock, or
 		outside("loop %d of %s has no invariant (at %s)", ord, load.FuncName(fn), pos)
 	}
 	if lc.Unroll > 0 {
-		outside("bounded unrolling is not enabled in this build")
+		// complete unrolling with an unwinding assertion (exact for loops over constant-length
+		// literals; the assertion is an obligation, so an insufficient bound fails the proof)
+		ex.assignPhis(st, b, prev)
+		st.Fr.Loops[b] = &loopRec{Ordinal: ord, Unroll: lc.Unroll, Count: 1}
+		outs := ex.execFrom(st, b, ex.firstNonPhi(b))
+		for i := range outs {
+			if outs[i].St.Fr != nil && outs[i].St.Fr.Fn == fn {
+				delete(outs[i].St.Fr.Loops, b)
+			}
+		}
+		return outs
 	}
 	// 1. invariant on entry
 	ex.assignPhis(st, b, prev)
